@@ -206,8 +206,9 @@ impl DailyLogsUpdate {
                     }
                     previous_hash = daily_hash;
                 } else {
-                    previous_hash = None;
-                    previous_history = None;
+                    //first selected day of this room/entity: it anchors the chain of the following days
+                    previous_hash = daily_hash;
+                    previous_history = history_hash;
                 }
                 previous_room = room;
                 previous_entity = entity;
